@@ -52,9 +52,9 @@ def run(ctx):
                 continue
             val = c[2] != neg
             whole = any(y and y[0] == "init" and y[1] and y[1][0] == 1 for y in absint.walk_terms(v[2][0])) and not any(y and y[0] == "call" and ANY_TRIM.search(y[1]) for y in absint.walk_terms(v))
-            if re.search(r"contains|Iterator>::any$|::find$|::position$", v[1]):
+            if re.search(r"contains|Iterator>?::any$|::find$|::position$", v[1]):
                 tests.append((not val) and whole)
-            elif re.search(r"Iterator>::all$", v[1]):
+            elif re.search(r"Iterator>?::all$", v[1]):
                 tests.append(val and whole)
         for bb, c in p.conds:
             if c and c[0] == "variant" and c[2] in ("Some", "None") and c[3] and c[3][0] == "call" and re.search(r"::find$|::position$", c[3][1]) and \
